@@ -40,6 +40,9 @@ def _decode(L, model, probes):
             (c,) = p.syms
             v = model.eval(c, model_completion=True)
             out[p.param] = {"kind": "node", "index": next(i for i in range(k) if v.eq(U[i]))}
+        elif p.kind == "nodemap":
+            Dm, Sg = p.syms
+            out[p.param] = {"kind": "nodemap", "map": {i: [j for j in range(k) if ev(Sg(U[i], U[j]))] for i in range(k) if ev(Dm(U[i]))}}
         elif p.kind == "seq":
             M, lt = p.syms
             mem = [i for i in range(k) if ev(M(U[i]))]
